@@ -12,6 +12,7 @@ class Ctx:
         for f in project.funcs.values():
             f.build()
         self.kinds = Kinds(project)
+        self.kinds.ctx = self
         for f in project.funcs.values():
             self.kinds.row_names(f)
         self._calls = None
@@ -141,6 +142,28 @@ class Ctx:
                 else:
                     unknown = True
         return vals, unknown
+
+    def param_arg_terms(self, callee, pname):
+        """(caller, node, term) of the argument passed for `pname` at every resolved call site of a dsw function"""
+        out = []
+        for fq, lst in self.calls().items():
+            for nd, c, cal, q in lst:
+                if cal is not callee:
+                    continue
+                f = self.p.funcs[fq]
+                a = None
+                if pname in callee.positional:
+                    i = callee.positional.index(pname)
+                    if callee.cls is not None and callee.positional and callee.positional[0] == 'self':
+                        i -= 1
+                    if 0 <= i < len(c.args):
+                        a = c.args[i]
+                for k in c.keywords:
+                    if k.arg == pname:
+                        a = k.value
+                if a is not None:
+                    out.append((f, nd, f.term(a, nd)))
+        return out
 
     def closure(self, *fqs):
         """functions reachable from the given entry points through resolved dsw calls"""
